@@ -26,7 +26,12 @@ def gen_job(verif_seed, tier, index):
     job, st = jobgen.base_job(PROP, verif_seed, tier, index, PROFILE)
     g = st.gen
     r = g.random()
-    if r < 0.3:
+    if r < 0.1 and len(job["spec"]["restypes"]) >= 2:
+        # kept residues in the middle of a rebuilt chain + step failures: rewinds pass over supplied residues
+        if jobgen.make_interior_kept(job, g) and not job["tape"].get("step"):
+            from simkit.core import draw_lane
+            job["tape"]["step"] = draw_lane(st.tape, 40, 0.3, True)
+    elif r < 0.3:
         jobgen.add_coordinates(job, g, PROFILE)
     elif r < 0.5 and "box" in job["opts"]:
         job["build_spec"] = bldgen.gen_build_spec(g, job["spec"], job["opts"]["box"], ["geom", "rw"],
